@@ -970,6 +970,20 @@ fn raw_gradient_table(fmt: u8, coords: &[i16], ext: u8, stops: &[(i16, u16, i16)
     t
 }
 
+/// COLR table written byte by byte: glyph 1 = a DAG of `d` PaintComposite tables whose source and backdrop
+/// offsets both point at the next paint (8 bytes further), ending in a PaintSolid
+fn raw_compdag_table(d: usize) -> Vec<u8> {
+    let mut t: Vec<u8> = vec![0, 1, 0, 0, 0, 0, 0, 0, 0, 0, 0, 0, 0, 0];
+    t.extend([0, 0, 0, 34]);
+    t.extend([0u8; 16]);
+    t.extend([0, 0, 0, 1, 0, 1, 0, 0, 0, 10]);
+    for _ in 0..d {
+        t.extend([32, 0, 0, 8, 3, 0, 0, 8]);
+    }
+    t.extend([2, 0, 0, 0x40, 0]);
+    t
+}
+
 /// directed gradient family: every format x extend (incl. unknown bytes) x stop pattern x geometry
 fn gen_gradients(rng: &mut Rng, thorough: bool, cases: &mut Vec<Case>) {
     let stop_patterns: Vec<Vec<(i16, u16, i16)>> = vec![
@@ -1430,10 +1444,12 @@ fn run_v0(rng: &mut Rng, n: usize, s: &mut Session, cap: Duration) {
     }
 }
 
-/// `fill_glyph` optimisation oracle on the real code (theorem `C13Fill.fill_glyph_optimisation_sound` and
-/// its counterexamples): for every small tree `G(X)`, glyph 1 = PaintGlyph(20, X) painted by a client that
-/// overrides `fill_glyph` must draw what glyph 4 = X painted inside a glyph clip draws: per fill the same
-/// brush and the same transformation (bt = product of the transforms open at that fill).
+/// INFORMATIONAL (beyond the property: C13 speaks about termination and nesting, not about what is
+/// drawn) — never an oracle, never a VIOLATION / KNOWN-FINDING line.  Counts, on the real code, how often the
+/// `fill_glyph` optimisation forwards a different brush transform than the un-optimised traversal would
+/// apply (theorem `C13Fill.fill_glyph_optimisation_sound` and its counterexamples): for every small tree
+/// `G(X)`, glyph 1 = PaintGlyph(20, X) painted by a client that overrides `fill_glyph` is compared with
+/// glyph 4 = X on its own: per fill the same brush and bt = product of the transforms open at that fill.
 fn run_fillopt(cases: &[Case], s: &mut Session, cap: Duration) {
     let mut jobs = vec![];
     let mut idx = vec![];
@@ -1447,6 +1463,7 @@ fn run_fillopt(cases: &[Case], s: &mut Session, cap: Duration) {
         idx.push(ci);
     }
     let resps = run_jobs(&jobs, cap, 8);
+    let mut noted = false;
     for (k, ci) in idx.iter().enumerate() {
         let (opt, rf) = (&resps[2 * k], &resps[2 * k + 1]);
         let c = &cases[*ci];
@@ -1498,13 +1515,18 @@ fn run_fillopt(cases: &[Case], s: &mut Session, cap: Duration) {
             .collect();
         let sig = if after_pop { "brush-transform-survives-pop_transform" } else { "pops-last" };
         s.count(&format!("fillopt:checked:{sig}"));
-        let ok = ref_draws == opt_draws;
-        s.oracle(
-            "fill_glyph-optimisation-draws-what-the-unoptimised-traversal-draws",
-            ok,
-            || format!("family=small-trees-fillopt sig={sig} {} colr={}", c.label, hex(&c.colr)),
-            || format!("PaintGlyph(20, X) optimised: {opt} /// X on its own (glyph 4): {rf}"),
-        );
+        if ref_draws != opt_draws {
+            s.count("info:fill_glyph brush transform differs from unoptimised traversal");
+            s.count(&format!("info:fill_glyph brush transform differs: {sig}"));
+            if !noted {
+                noted = true;
+                s.notes.push(format!(
+                    "info (outside the property): fill_glyph optimisation forwards a stale brush transform: {} colr={} /// PaintGlyph(20, X) optimised: {opt} /// X on its own (glyph 4): {rf}",
+                    c.label,
+                    hex(&c.colr)
+                ));
+            }
+        }
     }
 }
 
@@ -1795,6 +1817,46 @@ fn run_blowup(rng: &mut Rng, s: &mut Session, thorough: bool) {
         }
     }
     s.notes.push(format!("nested PaintGlyph chain, wall time per paint (doubles per level): {}", timings.join(", ")));
+    // theorem `C13Visits.composite_dag_visits`: d PaintComposite tables with source == backdrop cost 2^(d+1)-1 visits
+    let mut timings = vec![];
+    for d in [6usize, 9, 12, 16, 19] {
+        let colr = raw_compdag_table(d);
+        let font = Arc::new(hex(&font_of(&colr)));
+        let t = std::time::Instant::now();
+        let r = run_jobs(&[Job { font_hex: font, gid: 1, fg: 1, cm: 0, v0: false, mx: false }], Duration::from_secs(60), 1);
+        timings.push(format!("d={d}: {:.0} ms", t.elapsed().as_secs_f64() * 1000.0 / 2.0));
+        let input = || format!("family=compdag depth={d} bytes={} colr={}", colr.len(), hex(&colr));
+        judge_common(s, &r[0], &input);
+        if d <= 12 {
+            if let Ok(fr) = FontRef::new(&font_of(&colr)) {
+                if let Ok(c) = fr.colr() {
+                    let inst = extract(&c, &[1]);
+                    s.case("paint:compdag", format!("paint 1 0 1 {}", inst.request_tail()), strip_payloads(&r[0]));
+                    s.case("visits:compdag", format!("visits 1 0 1 {}", inst.request_tail()), ((1u64 << (d + 1)) - 1).to_string());
+                    s.case("bytes:compdag", format!("paint.bytes {} 1 0 1", hex(&colr)), r[0].clone());
+                    s.case("bytes:compdag", format!("visits.bytes {} 1 0 1", hex(&colr)), ((1u64 << (d + 1)) - 1).to_string());
+                }
+            }
+        }
+    }
+    s.notes.push(format!("shared-child PaintComposite DAG, wall time per paint (doubles per level): {}", timings.join(", ")));
+    {
+        let d = 40usize;
+        let cap = Duration::from_secs(if thorough { 20 } else { 6 });
+        {
+            let colr = raw_compdag_table(d);
+            let font = Arc::new(hex(&font_of(&colr)));
+            let r = run_jobs(&[Job { font_hex: font, gid: 1, fg: 1, cm: 0, v0: false, mx: false }], cap, 1);
+            let head = r[0].split(' ').next().unwrap_or("").to_string();
+            s.count(&format!("compdag-depth-40:result:{head}"));
+            s.oracle(
+                "paint-of-a-small-acyclic-table-terminates-within-the-time-cap",
+                head != "timeout",
+                || format!("family=compdag depth={d} nodes={} bytes={} cap={}s colr={}", d + 1, colr.len(), cap.as_secs(), hex(&colr)),
+                || format!("{} (2^41-1 = 2199023255551 paint-node visits for a {}-byte table)", r[0], colr.len()),
+            );
+        }
+    }
     let d = 40usize;
     let cap = Duration::from_secs(if thorough { 20 } else { 6 });
     let kinds: Vec<u8> = vec![b'G'; d];
